@@ -10,6 +10,7 @@ from __future__ import annotations
 import itertools
 import json
 import sys
+import unicodedata
 
 MAXFAIL = 40
 
@@ -21,6 +22,14 @@ class Out:
         self.cases = 0
         self.failures = []
         self.per_class = {}
+        self.nontrivial = 0
+        self.samples = []
+
+    def note(self, nontrivial, sample=None):
+        if nontrivial:
+            self.nontrivial += 1
+            if sample is not None and len(self.samples) < 3:
+                self.samples.append(sample)
 
     def mine(self):
         self.i += 1
@@ -169,6 +178,7 @@ def check_join(tier, out):
         if (bu.scheme, bu.raw_authority, bu._val[2], bu.raw_query_string, bu.raw_fragment) != B:
             continue
         rootless_base = B[1] == "" and not B[2].startswith("/")
+        out.cases += len(ref_objs) - 1
         for R, ru in ref_objs:
             want = rfc_resolve(B, R, USES_RELATIVE)
             try:
@@ -176,6 +186,7 @@ def check_join(tier, out):
                 got = (t.scheme, t.raw_authority, t._val[2], t.raw_query_string, t.raw_fragment)
             except Exception as e:  # noqa: BLE001
                 got = f"{type(e).__name__}: {e}"
+            out.note(got != B and got != R, {"base": _assemble(B), "ref": _assemble(R), "result": got})
             if got != want:
                 cls = None
                 if rootless_base:
@@ -202,7 +213,7 @@ def _pathlib_suffixes(name):
 def check_path_algebra(tier, out):
     from yarl import URL
     kinds = ("a", "b.c", "", "%2F", "é", "x.tar.gz")
-    rel = _paths(kinds, 2 if tier == "quick" else 3)
+    rel = _paths(kinds, 3 if tier == "quick" else 4)
     bases = []
     for p in [""] + ["/" + r for r in rel]:
         bases.append("http://h" + p)
@@ -222,6 +233,7 @@ def check_path_algebra(tier, out):
         rp = u.raw_parts
         raw_path = u.raw_path
         inp = {"url": b}
+        out.note(len(rp) >= 2, {"url": b, "raw_parts": rp, "child": str(u / "x y"), "with_suffix": str(u.with_suffix(".t")) if u.raw_name else None})
         # (1) raw_parts re-compose to raw_path
         if rp and rp[0] == "/":
             recomposed = "/" + "/".join(rp[1:])
@@ -261,7 +273,10 @@ def check_path_algebra(tier, out):
                 if "." in want_path:
                     want_path = remove_dot_segments(want_path)
                 if c.raw_path != want_path:
-                    out.fail("(u / s).raw_path != remove_dot_segments(directory of u + quoted s)", inp, c.raw_path, want_path)
+                    cls = None
+                    if want_path.startswith("//") and c.raw_path == "/" + want_path.lstrip("/"):
+                        cls = "C13-child-root-pop"     # '..' consumed the root marker, an empty segment is lost
+                    out.fail("(u / s).raw_path != remove_dot_segments(directory of u + quoted s)", inp, c.raw_path, want_path, cls)
             if s in texts:
                 if c.name != s:
                     out.fail("(u / s).name != s", inp, c.name, s)
@@ -416,6 +431,7 @@ def check_decode(tier, out):
             if not out.mine():
                 continue
             s = "".join(tup)
+            out.note(ref_unquote(s) != s, {"text": s, "decoded": ref_unquote(s), "as query": ref_unquote(s, qs=True)})
             for name, cfg in UNQUOTER_CONFIGS.items():
                 got = real[name](s)
                 want = ref_unquote(s, **cfg)
@@ -555,11 +571,14 @@ def check_human_repr(tier, out):
                 except Exception as e:  # noqa: BLE001
                     out.fail("human_repr round trip raised", inp, f"{type(e).__name__}: {e}", str(u))
                     continue
+                out.note(h != str(u), {"build": inp["build"], "human_repr": h, "str": str(u)})
                 if back != u:
                     cls = None
                     out.fail("URL(u.human_repr()) != u", inp, (h, str(back)), str(u), cls)
                 # readable: printable non-ASCII text of the component appears decoded
                 for ch in t:
+                    if comp in ("user", "password") and any(d in unicodedata.normalize("NFKC", ch) for d in "/?#@:"):
+                        continue        # would change the parse in this position: the parser rejects it
                     if ord(ch) > 127 and ch.isprintable() and ch not in h:
                         out.fail("printable non-ASCII text is escaped in human_repr()", inp, h, ch)
                 if host == "хост.рф" and "хост.рф" not in h:
@@ -607,25 +626,38 @@ def _view(u):
     return tuple(getattr(u, c) for c in COMPONENTS)
 
 
+def _fp_class(u):
+    """known classes of URLs whose string form is not a fixed point (known_findings.json)"""
+    from yarl._parse import USES_AUTHORITY
+    if u.raw_host is None and u._val[1] == "":
+        p = u._val[2]
+        if u.scheme == "" and ":" in p.split("/")[0]:
+            return "C03-colon-in-first-segment"
+        if u.scheme in USES_AUTHORITY and u.scheme != "" and p and not p.startswith("/"):
+            return "C03-scheme-rootless-path"
+    return None
+
+
 def _fixed(u, inp, out, how):
+    cls = _fp_class(u)
     try:
         s1 = str(u)
         v = type(u)(s1)
         s2 = str(v)
     except Exception as e:  # noqa: BLE001
-        out.fail(f"re-parsing str(url) raised ({how})", inp, f"{type(e).__name__}: {e}", "a URL")
+        out.fail(f"re-parsing str(url) raised ({how})", inp, f"{type(e).__name__}: {e}", "a URL", cls)
         return
     if s2 != s1:
-        out.fail(f"str(URL(str(url))) != str(url) ({how})", inp, s2, s1)
+        out.fail(f"str(URL(str(url))) != str(url) ({how})", inp, s2, s1, cls)
         return
     a, b = _view(u), _view(v)
     if a != b:
         d = [(c, x, y) for c, x, y in zip(COMPONENTS, a, b) if x != y]
-        if how == "parsed" and all(c in ("explicit_port",) for c, _, _ in d):
+        if all(c in ("explicit_port",) for c, _, _ in d):
             # an explicit default port is dropped by str(): documented normalisation (C17), and
             # the property's component list names `port`, which agrees
             return
-        out.fail(f"components of URL(str(url)) differ ({how})", inp, d[:3], "identical components")
+        out.fail(f"components of URL(str(url)) differ ({how})", inp, d[:3], "identical components", cls)
 
 
 def check_fixed_point(tier, out):
@@ -638,6 +670,7 @@ def check_fixed_point(tier, out):
         except (ValueError, TypeError):
             continue
         inp = {"url": s}
+        out.note(str(u) != s, {"url": s, "str": str(u)})
         _fixed(u, inp, out, "parsed")
         if out.i % 7 == 0:
             mods = (("with_fragment('a#b')", lambda x: x.with_fragment("a#b")), ("with_path('/p/../q r')", lambda x: x.with_path("/p/../q r")),
@@ -664,7 +697,8 @@ def main(argv):
     name, tier, k, n = argv[0], argv[1], int(argv[2]), int(argv[3])
     out = Out(k, n)
     CHECKS[name](tier, out)
-    json.dump({"cases": out.cases, "failures": out.failures}, sys.stdout, ensure_ascii=True, default=repr)
+    json.dump({"cases": out.cases, "failures": out.failures, "nontrivial": out.nontrivial, "samples": out.samples},
+              sys.stdout, ensure_ascii=True, default=repr)
 
 
 if __name__ == "__main__":
